@@ -70,14 +70,16 @@ fn rel_path_raw(rng: &mut Rng) -> String {
         if rng.chance(1, 6) {
             p += *rng.pick(&ODD_DIRS);
         } else {
-            p += *rng.pick(&["d0", "d1", "Dir_2", "d.3", "sqpack", "d-x", "d", "d0.bak", "d0-old", "d"]);
+            // also names that differ from another one only in letter case (distinct files on the
+            // case-sensitive file systems the patcher runs on)
+            p += *rng.pick(&["d0", "d1", "Dir_2", "d.3", "sqpack", "d-x", "d", "d0.bak", "d0-old", "d", "D0", "dir_2", "SqPack", "D"]);
         }
         p.push('/');
     }
     if rng.chance(1, 4) {
         p += *rng.pick(&ODD_FILES);
     } else {
-        p += *rng.pick(&["f0", "f1.bin", "F2.TXT", "f_3", "f-4.dat", "x.5", "f6", "f7.ver"]);
+        p += *rng.pick(&["f0", "f1.bin", "F2.TXT", "f_3", "f-4.dat", "x.5", "f6", "f7.ver", "F0", "F1.BIN", "f2.txt", "X.5", "F7.Ver"]);
     }
     p
 }
